@@ -38,10 +38,10 @@ def run(ctx):
     done = [e for e in evs if e["ev"] == "paging"]
     res.traces = len(done)
     for e in done:
-        res.case([e["pages"], [c["n"] for c in e["calls"]], e["embedded"]])
+        res.case([e["pages"], [c["n"] for c in e["calls"]], e["embedded"], e.get("start0", 0)])
     res.rule = ("a case is one paging session of the real pub.Collection: a page layout (item counts, next pointers incl. back "
                 "edges, broken links, empty pages) realised as embedded JSON or served page by page, harvested with a sequence of "
-                "request sizes; judged by T_Paging (HistoryOK); distinct = distinct (layout, request sizes, realisation); TLC "
+                "request sizes (a third of the sessions from a start offset of 1 to beyond the end of the first page); judged by T_Paging (HistoryOK); distinct = distinct (layout, request sizes, realisation); TLC "
                 "enumerates all sessions of the small bounds and all plain chains up to 6-8 pages, larger ones are seeded random")
     for e in done[:1] + done[-1:]:
         res.sample({"pages": e["pages"], "embedded": e["embedded"], "calls": e["calls"]})
